@@ -1,9 +1,13 @@
 import LentilVerif.Model.ZernikeRadial
+import LentilVerif.Model.ZernikeBound
 /-! THOROUGH TIER ONLY (about 5 minutes of kernel time): the cleared-denominator integer Gram table of the radial polynomials for all
 orders n, n' ≤ 40 — every pair among the 861 modes the float evaluation can represent. Built by tools/harness/c11.py in the
 thorough tier (`lake build LentilVerif.Props.C11Thorough`), not part of the quick build. -/
 namespace Lentil
 
 theorem allGram_40 : allGram 40 = true := by decide +kernel
+
+/-- the Chebyshev certificate of `|R_n^m| ≤ 1` for all 441 valid (n, m) with n ≤ 40 -/
+theorem allCheb_40 : allCheb 40 = true := by decide +kernel
 
 end Lentil
